@@ -11,13 +11,21 @@ also reads `id_link`, `auto`, `names`, `classes`, `label` and the observation ma
 
 Signatures (one per cause: violated clause, then the party at fault; never the single witness):
 
-  occurs-once:<tag>   parent-pointer:<tag>
+  occurs-once:<tag>[:<construct>]   parent-pointer:<tag>[:<construct>]
+                            construct = directive:<name> | eval-rst: the node (and the node that lists it) came out of
+                            that directive's run(), i.e. node-BUILDING code of the directive or of MyST's mocked state
+                            (mocking.py: block_quote, nest_line_block_lines, inline_text, build_table ...) is at fault.
+                            Appended when the failure is there directly after parsing (no transform has run); a failure
+                            that only exists after the transform pipeline keeps the bare form (a transform did it)
   section:under-<parent tag>   section:no-title[:eval-rst]   transition:inside-container
   structure:eval-rst-splice:section-or-transition-under-container      (section / transition spliced under a container
                                                                         by `{eval-rst}`; one cause: see SIG_RST_SPLICE)
   ids:duplicate:<who>       who = eval-rst | toc-copy | math-label+math-label | math-label+other | <tagA>+<tagB>
   refid:dangling:<lost>     lost = docinfo-stripped | node-removed:<Transform> | id-dropped:<Transform>: the id existed
-                            and that party lost it (found by `trace_ids`: ids before every transform of a second run)
+                            and that party lost it (found by `trace_ids`: ids before every transform of a second run);
+                            lost = dropped-by:directive:<name>: the id is registered in document.ids for a node that a
+                            nested parse made for that directive and the directive did not return (it validated
+                            the parsed content and returned only an error)
   refid:dangling:<tag>:<producer>:never-existed   no tree of the pipeline ever had the id: the writer of the refid is
                             at fault.  tag = reference | footnote_reference | citation_reference | target; producer =
                             id_link | myst-xref | sphinx-xref | contents | eval-rst | directive:<name> | other (reference),
@@ -26,7 +34,17 @@ Signatures (one per cause: violated clause, then the party at fault; never the s
   backref:dangling:<lost>   backref:dangling:<footnote|citation>:<auto|symbol|manual|eval-rst>:never-existed
   table:cols-colspecs   table:row-cells[:eval-rst]
   footnote:no-label-first[:eval-rst]
-  exception:<Class>:<innermost Transform on the stack, else innermost library function>[:eval-rst-id]
+  exception:<Class>:<innermost Transform on the stack, else innermost library function>[:eval-rst-id|:detached-startnode]
+                            (library function: container accessors of docutils.nodes such as Element.__getitem__ are
+                            skipped - `node[0]` is charged to the function that indexed; detached-startnode: the
+                            transform was started for a `pending` node that is not in the document)
+
+Round 3: directives that reach MyST's mocked docutils state (mocking.py) are driven with structured bodies:
+MOCK_USE_CORE / MOCK_USE_SPHINX (state member -> directives, derived from the directive sources and re-derived on every
+run by `selfcheck_mock_table`), MOCK_DOCS (deterministic witnesses, search-only: `ALL_WITNESSES`), the `structured`
+generators of DocGen (search-only: `gen_case(..., structured=STRUCTURED_SHARE)`), observation probes on the mock's
+methods (`MOCK_HITS`; `selfcheck_mock_reach`: every (callable member, directive) pair of the tables is reached by a
+witness) and INC_DIR (placeholder for the scratch directory with the files of `{include}` / `{literalinclude}`).
 
 Own test run:  PYTHONPATH=/repo /venv/bin/python /verif/gen/c03_search.py [n] [seed]
 """
@@ -217,15 +235,89 @@ def _path(node, limit=12):
     return "/".join(reversed(tags))
 
 
-def check_tree(doc, stage, warnings_text="", history=None):
+WALKED_TAGS = {}          # tag -> elements met by check_tree so far ("!mismatch": walks that disagree with findall)
+# what the structured witnesses must make the walker meet (parse or full stage)
+_MUST_WALK = ("decoration", "header", "footer", "line_block", "line", "block_quote", "attribution", "figure", "caption",
+              "legend", "table", "tgroup", "thead", "tbody", "row", "entry", "title", "subtitle", "sidebar", "topic",
+              "rubric", "admonition", "compound", "container", "literal_block", "pending", "problematic",
+              "system_message", "substitution_definition", "glossary", "definition_list_item", "term",
+              "definition", "productionlist", "production", "versionmodified", "seealso", "centered", "hlist",
+              "hlistcol", "acks", "only", "toctree", "desc", "desc_signature", "desc_content",
+              "desc_parameterlist", "field_list", "field", "field_body", "index", "tabular_col_spec", "highlightlang",
+              "math_block", "target", "footnote", "footnote_reference", "image", "reference", "raw", "inline")
+
+
+def _construct_of(node, *listers):
+    """Producing construct of a node that is listed twice / has a wrong parent pointer, when it can be told
+    cheaply: the observation mark `directive:<name>` / `eval-rst` the driver left on the node, provided one of the
+    nodes that list it carries the same mark (both came out of the same directive run)."""
+    org = _origin(node)
+    if not org or not (org == "eval-rst" or org.startswith("directive:")):
+        return ""
+    if any(p is not None and _origin(p) == org for p in listers):
+        return ":" + org
+    return ""
+
+
+_DROP_LABELS = {}
+
+
+def _drop_label(name):
+    """Name of a content-dropping directive in a signature: the directive's name as written, except for the object
+    descriptions of the Sphinx domains (py:function, c:member, js:class, option, describe ... - some sixty names
+    that share ObjectDescription.run and its DocFieldTransformer): they are one call site, `object-description`."""
+    if name in _DROP_LABELS:
+        return _DROP_LABELS[name]
+    label = name
+    try:
+        from gen import c02_lib as L
+        inst = L.SphinxDriver._inst
+        if inst is not None:
+            from sphinx.directives import ObjectDescription
+            core, sph = registered_directives(inst.app)
+            for cand in (name, "std:" + name, "py:" + name):
+                cls = sph.get(cand)
+                if cls is not None:
+                    if issubclass(cls, ObjectDescription):
+                        label = "object-description"
+                    break
+    except Exception:
+        pass
+    _DROP_LABELS[name] = label
+    return label
+
+
+def check_tree(doc, stage, warnings_text="", history=None, at_parse=None):
     """Independent well-formedness walker.  Returns a list of {"signature", "what", "detail"}.
 
     `history`: optional zero-argument callable returning an `IdHistory` of the same case (asked only when a
-    dangling refid / backref is found at the full stage, to name the reason in the signature)."""
+    dangling refid / backref is found at the full stage, to name the reason in the signature).
+    `at_parse`: optional zero-argument callable returning the set of signatures the same case has directly after
+    parsing (asked only when an occurs-once / parent-pointer failure is found at the full stage: the producing
+    construct is named only if the failure was there before any transform ran)."""
     fails = []
 
     def fail(sig, what, detail=None):
         fails.append({"signature": sig, "what": what, "detail": detail})
+
+    parse_sigs = [None]
+
+    def built_by(sig, node, *listers):
+        """sig + ':<construct>' when the node-building construct is known to be at fault (see _construct_of)."""
+        suffix = _construct_of(node, *listers)
+        if not suffix:
+            return sig
+        if stage != "parse":
+            if parse_sigs[0] is None:
+                try:
+                    parse_sigs[0] = set(at_parse()) if at_parse is not None else set()
+                except (KeyboardInterrupt, SystemExit, MemoryError):
+                    raise
+                except BaseException:  # noqa: BLE001 - diagnosis only
+                    parse_sigs[0] = set()
+            if sig + suffix not in parse_sigs[0]:
+                return sig
+        return sig + suffix
 
     # ---- clause 1: one parent, one occurrence (Text nodes included); builds the list of elements
     seen = {}                 # id(obj) -> obj (keeps the objects alive, so id() cannot be recycled)
@@ -242,18 +334,36 @@ def check_tree(doc, stage, warnings_text="", history=None):
         fresh = []
         for c in kids:
             if id(c) in seen:
-                fail("occurs-once:" + _tag(c), f"the same {_tag(c)} object is reachable twice (second time under "
-                     f"{_tag(p)})", {"node": _short(c), "second_parent": _path(p)})
+                first = lister.get(id(c))
+                fail(built_by("occurs-once:" + _tag(c), c, first, p),
+                     f"the same {_tag(c)} object is reachable twice (first under "
+                     f"{_tag(first) if first is not None else None}, again under {_tag(p)})",
+                     {"node": _short(c), "first_parent": _path(first) if first is not None else None,
+                      "second_parent": _path(p), "origin": _origin(c)})
                 continue
             seen[id(c)] = c
             lister[id(c)] = p
             if getattr(c, "parent", None) is not p:
-                fail("parent-pointer:" + _tag(c), f"{_tag(c)} is a child of {_tag(p)} but its parent pointer is "
+                fail(built_by("parent-pointer:" + _tag(c), c, p, getattr(c, "parent", None)),
+                     f"{_tag(c)} is a child of {_tag(p)} but its parent pointer is "
                      f"{_tag(getattr(c, 'parent', None)) if getattr(c, 'parent', None) is not None else None}",
-                     {"node": _short(c), "listed_under": _path(p)})
+                     {"node": _short(c), "listed_under": _path(p), "origin": _origin(c)})
             if hasattr(c, "children") and not isinstance(c, str):
                 fresh.append(c)
         stack.extend(reversed(fresh))       # a node reached a second time is reported, not descended into again
+    # self-check of the walk: it reads nothing but `.children`, so it descends into whatever a directive builds
+    # (decoration/header/footer, line_block/line, attribution, caption/legend, term/classifier, desc_* ...; the
+    # `details` of a pending node are not children).  Tags seen are recorded, and on a tree without duplicates the
+    # walk must have met exactly the nodes docutils' own traversal yields.
+    for e in elements:
+        WALKED_TAGS[_tag(e)] = WALKED_TAGS.get(_tag(e), 0) + 1
+    if not fails:
+        try:
+            n_docutils = sum(1 for _ in doc.findall())
+        except Exception:
+            n_docutils = None
+        if n_docutils is not None and n_docutils != len(seen):
+            WALKED_TAGS["!mismatch"] = WALKED_TAGS.get("!mismatch", 0) + 1
 
     # ---- clauses 2, 3: sections and transitions
     for e in elements:
@@ -307,12 +417,35 @@ def check_tree(doc, stage, warnings_text="", history=None):
     warned = None
     hist = [None, False]
 
+    def dropped_by(i):
+        """The id is registered in `document.ids` for a node that is not in the tree and that a nested parse made
+        on behalf of a directive: the directive parsed its content and then dropped it (docutils `table`,
+        `list-table`, `figure` ... validate the parsed content and return only an error), while the registries of
+        the document (ids, names, footnote references) still know the dropped nodes."""
+        try:
+            n = (getattr(doc, "ids", None) or {}).get(i)
+        except Exception:
+            n = None
+        if n is None or id(n) in seen:
+            return None
+        # the directive that dropped it: the mark on the topmost marked node of the detached subtree (what the
+        # dropping directive's own nested parse produced; nested directives marked only their own content)
+        name, hops = None, 0
+        while n is not None and hops < 200:
+            name = getattr(n, "_c03_parsed_for", None) or name
+            n, hops = getattr(n, "parent", None), hops + 1
+        return ("dropped-by:directive:" + _drop_label(name)) if name else None
+
     def why_missing(i):
         """Last signature component: why no node of the final tree carries id `i` (see `IdHistory.reason`)."""
         if i in stripped_ids:
             return "docinfo-stripped"
         if stage == "parse":
-            return "never-existed"           # nothing ran between the renderer and this walk
+            return dropped_by(i) or "never-existed"       # nothing ran between the renderer and this walk
+        w = _why_missing_full(i)
+        return (dropped_by(i) or w) if w == "never-existed" else w
+
+    def _why_missing_full(i):
         if not hist[1]:
             hist[1] = True
             try:
@@ -356,6 +489,9 @@ def check_tree(doc, stage, warnings_text="", history=None):
                 continue
             carry = [0] * cols                      # remaining rowspan per column
             for ri, row in enumerate(part.children):
+                if _tag(row) == "transition":
+                    continue        # reported under its own clause (a misplaced transition that docutils'
+                    #                 Transitions transform moved up out of a cell); not a row of the table
                 if _tag(row) != "row":
                     fail("table:row-cells", f"{_tag(part)} child is {_tag(row)}, not row", _path(row))
                     continue
@@ -363,6 +499,8 @@ def check_tree(doc, stage, warnings_text="", history=None):
                 width, ok = 0, True
                 spans = []
                 for ent in row.children:
+                    if _tag(ent) == "transition":
+                        continue    # the same: clause 3 reports it
                     if _tag(ent) != "entry":
                         ok = False
                         continue
@@ -436,13 +574,22 @@ def _exception_failure(exc, stage):
         if mod.split(".")[0] in _SITE_PKGS:
             qn = getattr(code, "co_qualname", code.co_name)
             qn = qn.replace(".<locals>", "")
-            site = f"{mod}.{qn}"
+            # a container accessor of docutils.nodes (`node[0]` -> Element.__getitem__) is not a call site: the
+            # function that indexed is
+            if not (mod == "docutils.nodes" and code.co_name.startswith("__") and site is not None):
+                site = f"{mod}.{qn}"
             if code.co_name == "apply":
                 slf = fr.f_locals.get("self")
                 try:
                     from docutils.transforms import Transform
                     if isinstance(slf, Transform):
                         transform = f"{type(slf).__module__}.{type(slf).__name__}"
+                        # the transform's start node (a `pending` a directive registered) is not in the document:
+                        # the directive's output was dropped by an enclosing directive (see dropped-by above)
+                        top = sn = getattr(slf, "startnode", None)
+                        while top is not None and getattr(top, "parent", None) is not None:
+                            top = top.parent
+                        construct = ":detached-startnode" if sn is not None and top is not slf.document else ""
                 except Exception:
                     pass
         fn = code.co_filename.replace("\\", "/")
@@ -557,7 +704,8 @@ class _plain_docutils:
         from docutils.parsers.rst import directives, roles
         d, r = _pristine_registries()
         self.saved = (directives._directives, roles._roles)
-        directives._directives, roles._roles = d, r
+        # copies: a `{role}` / `{default-role}` of one case registers in these dicts and must not reach the next case
+        directives._directives, roles._roles = dict(d), dict(r)
 
     def __exit__(self, *a):
         from docutils.parsers.rst import directives, roles
@@ -620,7 +768,12 @@ def _install_directive_marks():
         return
 
     def run_directive(self, name, *a, **kw):
-        out = orig(self, name, *a, **kw)
+        _DIRECTIVE_STACK.append(str(name))
+        try:
+            out = orig(self, name, *a, **kw)
+        finally:
+            _DIRECTIVE_STACK.pop()
+        MOCK_HITS[("run", str(name))] = MOCK_HITS.get(("run", str(name)), 0) + 1
         try:
             for top in out:
                 for n in top.findall():
@@ -669,6 +822,419 @@ def _install_resolver_marks():
 
     wrap(MystReferenceResolver, "myst-xref")
     wrap(ReferencesResolver, "sphinx-xref")
+
+
+# ------------------------------------------------------------------------------------------------ mocked state: who uses it
+
+# Which registered directive reaches which member of MyST's mocked docutils state (myst_parser/mocking.py:
+# MockState = `self.state`, MockStateMachine = `self.state_machine`, MockInliner = `self.state.inliner`).
+#
+# DERIVED MECHANICALLY by `derive_mock_table()` (below) from the sources of the directive classes: every class of
+# the MRO of every registered directive class (docutils.parsers.rst.Directive and sphinx.util.docutils.SphinxDirective
+# themselves excluded: their generic accessors `state.document.settings.env`, `state_machine.get_source_and_line`
+# are common to all) is scanned for `self.state.<m>` / `self.state_machine.<m>` / `directive.state.<m>`, for local
+# aliases of `self.state`, and for the helpers that reach the state on the directive's behalf:
+#   self.parse_inline(...)                                    -> state.inline_text
+#   self.parse_content_to_nodes / self.parse_text_to_nodes,
+#   nested_parse_to_nodes(self.state, ...), nested_parse_with_titles(self.state, ...)
+#                                                             -> state.nested_parse + state.memo (title styles)
+#   switch_source_input(self.state, ...)                      -> state.memo
+#   DocFieldTransformer(self)  (sphinx/util/docfields.py)     -> state.inliner (handed to the field roles)
+#   isinstance(self.state, states.SubstitutionDef)            -> "state:isinstance-SubstitutionDef" (never true for
+#                                                                a MockState: replace / unicode / date always error)
+# Names: MOCK_USE_CORE = docutils' `directives._directive_registry` (English names); MOCK_USE_SPHINX = what the
+# in-process Sphinx application adds or overrides: `app.add_directive` (docutils `directives._directives`, includes
+# MyST's `figure-md`) and the `directives` dict of every domain as `<domain>:<name>` (std: and py: names also
+# resolve without the prefix).  Registered directives that touch no member of the state at all:
+# restructuredtext-test-directive (core); c:namespace* cpp:namespace* code default-domain highlight py:currentmodule
+# std:program tabularcolumns toctree (Sphinx) - they still run under a MockState and are in the witnesses.
+# `{include}` never reaches `state_machine.insert_input`: run_directive replaces it by MockIncludeDirective.
+# `selfcheck_mock_table` re-derives the table on every run and counts any difference / unregistered name.
+MOCK_USE_CORE = {
+    'state.block_quote':
+        'epigraph highlights pull-quote',
+    'state.build_table':
+        'csv-table',
+    'state.document':
+        'code csv-table figure image include meta raw',
+    'state.inline_text':
+        'admonition attention caution contents csv-table danger error hint important line-block '
+        'list-table note parsed-literal rubric sidebar table tip topic warning',
+    'state.nest_line_block_lines':
+        'line-block',
+    'state.nested_list_parse':
+        'meta',
+    'state.nested_parse':
+        'admonition attention caution class compound container danger error figure footer header hint '
+        'important list-table note replace sidebar table tip topic warning',
+    'state.parse_directive_block':
+        'role',
+    'state.parse_target':
+        'figure image',
+    'state.reporter':
+        'default-role role',
+    'state:isinstance-SubstitutionDef':
+        'date figure image replace unicode',
+    'state_machine.document':
+        'class contents footer header sectnum target-notes title',
+    'state_machine.get_source':
+        'csv-table',
+    'state_machine.get_source_and_line':
+        'admonition attention caution contents csv-table danger error figure hint image important '
+        'list-table math note raw table tip warning',
+    'state_machine.insert_input':
+        'include',
+    'state_machine.language':
+        'default-role role',
+    'state_machine.match_titles':
+        'contents sidebar topic',
+    'state_machine.node':
+        'contents sidebar topic unicode',
+}
+MOCK_USE_SPHINX = {
+    'state._renderer':
+        'figure-md',
+    'state.build_table':
+        'csv-table',
+    'state.document':
+        'c:alias c:enum c:enumerator c:function c:macro c:member c:struct c:type c:union c:var code-block '
+        'cpp:alias cpp:class cpp:concept cpp:enum cpp:enum-class cpp:enum-struct cpp:enumerator '
+        'cpp:function cpp:member cpp:struct cpp:type cpp:union cpp:var csv-table deprecated describe '
+        'figure include index js:attribute js:class js:data js:function js:method js:module '
+        'literalinclude math object only py:attribute py:class py:classmethod py:data py:decorator '
+        'py:decoratormethod py:exception py:function py:method py:module py:property py:staticmethod '
+        'py:type rst:directive rst:directive:option rst:role sourcecode std:cmdoption std:confval '
+        'std:envvar std:glossary std:option std:productionlist versionadded versionchanged versionremoved',
+    'state.inline_text':
+        'admonition attention caution centered codeauthor csv-table danger deprecated error hint '
+        'important moduleauthor note rubric sectionauthor seealso std:confval std:glossary tip '
+        'versionadded versionchanged versionremoved warning',
+    'state.inliner':
+        'c:alias c:enum c:enumerator c:function c:macro c:member c:struct c:type c:union c:var cpp:alias '
+        'cpp:class cpp:concept cpp:enum cpp:enum-class cpp:enum-struct cpp:enumerator cpp:function '
+        'cpp:member cpp:struct cpp:type cpp:union cpp:var describe js:attribute js:class js:data '
+        'js:function js:method object py:attribute py:class py:classmethod py:data py:decorator '
+        'py:decoratormethod py:exception py:function py:method py:property py:staticmethod py:type '
+        'rst:directive rst:directive:option rst:role std:cmdoption std:confval std:envvar std:option',
+    'state.memo':
+        'acks c:alias c:enum c:enumerator c:function c:macro c:member c:struct c:type c:union c:var '
+        'cpp:alias cpp:class cpp:concept cpp:enum cpp:enum-class cpp:enum-struct cpp:enumerator '
+        'cpp:function cpp:member cpp:struct cpp:type cpp:union cpp:var deprecated describe hlist '
+        'js:attribute js:class js:data js:function js:method js:module object only py:attribute py:class '
+        'py:classmethod py:data py:decorator py:decoratormethod py:exception py:function py:method '
+        'py:module py:property py:staticmethod py:type rst:directive rst:directive:option rst:role '
+        'std:cmdoption std:confval std:envvar std:glossary std:option versionadded versionchanged '
+        'versionremoved',
+    'state.nested_parse':
+        'acks admonition attention c:alias c:enum c:enumerator c:function c:macro c:member c:struct '
+        'c:type c:union c:var caution cpp:alias cpp:class cpp:concept cpp:enum cpp:enum-class '
+        'cpp:enum-struct cpp:enumerator cpp:function cpp:member cpp:struct cpp:type cpp:union cpp:var '
+        'cssclass danger deprecated describe error figure figure-md hint hlist important js:attribute '
+        'js:class js:data js:function js:method js:module note object only py:attribute py:class '
+        'py:classmethod py:data py:decorator py:decoratormethod py:exception py:function py:method '
+        'py:module py:property py:staticmethod py:type rst-class rst:directive rst:directive:option '
+        'rst:role seealso std:cmdoption std:confval std:envvar std:glossary std:option tip versionadded '
+        'versionchanged versionremoved warning',
+    'state.parent':
+        'only',
+    'state.parse_target':
+        'figure',
+    'state.reporter':
+        'default-role std:glossary',
+    'state:isinstance-SubstitutionDef':
+        'figure',
+    'state_machine.document':
+        'cssclass rst-class',
+    'state_machine.get_source':
+        'csv-table',
+    'state_machine.get_source_and_line':
+        'admonition attention caution code-block csv-table danger error figure hint important '
+        'literalinclude note seealso sourcecode tip warning',
+    'state_machine.insert_input':
+        'include',
+    'state_machine.language':
+        'default-role',
+    'state_machine.reporter':
+        'figure-md',
+}
+
+# state members that BUILD nodes or hand nodes back (the ones a witness has to drive); the rest of the table are
+# plain data accessors (document, reporter, language, memo, match_titles, node, parent)
+_MOCK_CALLABLES = ("state.block_quote", "state.build_table", "state.inline_text", "state.nest_line_block_lines",
+                   "state.nested_list_parse", "state.nested_parse", "state.parse_directive_block",
+                   "state.parse_target", "state_machine.get_source", "state_machine.get_source_and_line")
+
+# (member, directive) pairs of the table that no document can reach, with the reason (checked by hand)
+_MOCK_UNREACHABLE = {
+    # `{include}` is run as MockIncludeDirective (probe "include.run"), the docutils class is never instantiated
+    ("state_machine.insert_input", "include"): "replaced by MockIncludeDirective",
+    ("state.document", "include"): "replaced by MockIncludeDirective",
+    # these test `isinstance(self.state, SubstitutionDef)` first and raise: the rest of run() is dead under MyST
+    ("state.nested_parse", "replace"): "not in a substitution definition",
+    ("state_machine.node", "unicode"): "not in a substitution definition",
+    # the alias directives override ObjectDescription.run() (no content, no field lists)
+    ("state.nested_parse", "c:alias"): "CAliasObject.run does not parse content",
+}
+# docutils' BaseAdmonition (the scanned source all admonitions share) parses a title with inline_text only when the
+# node class is nodes.admonition, i.e. for `{admonition}`; the fixed-title admonitions never call it
+for _n in "attention caution danger error hint important note tip warning seealso".split():
+    _MOCK_UNREACHABLE[("state.inline_text", _n)] = "fixed title: BaseAdmonition parses a title only for `admonition`"
+
+_SKIP_BASES = {("docutils.parsers.rst", "Directive"), ("sphinx.util.docutils", "SphinxDirective"),
+               ("builtins", "object")}
+_RX_STATE_ATTR = re.compile(r"\b(?:self|directive)\.(state_machine|state)\.(inliner\b|\w+)")
+_RX_STATE_ALIAS = re.compile(r"^\s*(\w+)(?:\s*:\s*[\w\[\], .]+)?\s*=\s*(?:cast\(\s*\w+\s*,\s*)?self\.state\)?\s*$", re.M)
+_STATE_HELPERS = [
+    (re.compile(r"\bself\.parse_inline\("), ("state.inline_text",)),
+    (re.compile(r"\bself\.parse_(?:content|text)_to_nodes\("), ("state.nested_parse", "state.memo")),
+    (re.compile(r"\bnested_parse_(?:to_nodes|with_titles)\(\s*self\.state\b"), ("state.nested_parse", "state.memo")),
+    (re.compile(r"\bparse_generated_content\(\s*self\.state\b"), ("state.nested_parse",)),
+    (re.compile(r"\bswitch_source_input\(\s*self\.state\b"), ("state.memo",)),
+    (re.compile(r"\bDocFieldTransformer\(\s*self\s*\)"), ("state.inliner",)),
+    (re.compile(r"\bisinstance\(\s*self\.state\s*,\s*states\.SubstitutionDef"), ("state:isinstance-SubstitutionDef",)),
+]
+_CLASS_USES = {}
+
+
+def _class_state_uses(cls):
+    """Members of the (mocked) state a directive class mentions in its own source or an inherited one."""
+    import inspect
+    if cls in _CLASS_USES:
+        return _CLASS_USES[cls]
+    out = set()
+    for k in cls.__mro__:
+        if (k.__module__, k.__name__) in _SKIP_BASES:
+            continue
+        try:
+            src = inspect.getsource(k)
+        except (OSError, TypeError):
+            continue
+        src = re.sub(r"(?m)^\s*#.*$", "", src)
+        for m in _RX_STATE_ATTR.finditer(src):
+            out.add(f"{m.group(1)}.{m.group(2)}")
+        for m in _RX_STATE_ALIAS.finditer(src):
+            for m2 in re.finditer(r"\b%s\.(\w+)" % re.escape(m.group(1)), src):
+                out.add("state." + m2.group(1))
+        for rx, uses in _STATE_HELPERS:
+            if rx.search(src):
+                out.update(uses)
+    _CLASS_USES[cls] = out
+    return out
+
+
+def registered_directives(sphinx_app=None):
+    """(core, sphinx): name -> class.  core = docutils' registry; sphinx = what the application adds / overrides."""
+    import importlib
+    import inspect
+    from docutils.parsers.rst import directives as D
+    core = {}
+    for name, (mod, cname) in D._directive_registry.items():
+        try:
+            core[name] = getattr(importlib.import_module("docutils.parsers.rst.directives." + mod), cname)
+        except Exception:
+            pass
+    sph = {}
+    if sphinx_app is not None:
+        for name, cls in D._directives.items():
+            if inspect.isclass(cls) and (name not in core or cls is not core[name]):
+                sph[name] = cls
+        for dom in sphinx_app.env.domains.sorted():
+            for n, cls in dom.directives.items():
+                sph[f"{dom.name}:{n}"] = cls
+    return core, sph
+
+
+def derive_mock_table(reg):
+    t = {}
+    for n, c in reg.items():
+        for u in _class_state_uses(c):
+            t.setdefault(u, set()).add(n)
+    return {u: " ".join(sorted(v)) for u, v in t.items()}
+
+
+def table_pairs():
+    """[(member, directive name as written in a document, backend-only-or-None)] of both tables."""
+    out = []
+    for member, names in MOCK_USE_CORE.items():
+        out += [(member, n, None) for n in names.split()]
+    for member, names in MOCK_USE_SPHINX.items():
+        out += [(member, n, "sphinx") for n in names.split()]
+    return out
+
+
+def selfcheck_mock_table(ctx):
+    """Cheap self-check (counted, never raised): every directive named in the tables is still registered, and the
+    tables are what the sources say now."""
+    from gen import c02_lib as L
+    try:
+        _pristine_registries()          # snapshot of docutils' registries before the application exists
+        core, sph = registered_directives(L.SphinxDriver.get().app)
+    except (KeyboardInterrupt, SystemExit, MemoryError):
+        raise
+    except BaseException as e:  # noqa: BLE001
+        ctx.count("c03:selfcheck:FAILED:cannot-list-directives:" + type(e).__name__)
+        return False
+    ok = True
+    for table, reg, label in ((MOCK_USE_CORE, core, "core"), (MOCK_USE_SPHINX, sph, "sphinx")):
+        for member, names in table.items():
+            for n in names.split():
+                if n not in reg:
+                    ok = False
+                    ctx.count(f"c03:selfcheck:FAILED:not-registered:{label}:{n}")
+        now = derive_mock_table(reg)
+        for member in sorted(set(now) | set(table)):
+            if now.get(member, "") != table.get(member, ""):
+                ok = False
+                ctx.count(f"c03:selfcheck:FAILED:table-differs-from-source:{label}:{member}")
+    ctx.count("c03:selfcheck:mock-table:" + ("ok" if ok else "FAILED"))
+    return ok
+
+
+def selfcheck_mock_reach(ctx):
+    """After the fixed witnesses: every (callable member, directive) pair of the tables was reached at least once
+    (the directive ran and the mocked method was called on its behalf), except the pairs listed unreachable."""
+    ok = True
+    ran = {d for (m, d) in MOCK_HITS if m == "run"}
+    for member, name, _b in table_pairs():
+        written = {name} | ({name.split(":", 1)[1]} if name.startswith(("std:", "py:")) else set())
+        if not (written & ran):
+            ok = False
+            ctx.count(f"c03:selfcheck:FAILED:no-witness-runs:{name}")
+            continue
+        if member not in _MOCK_CALLABLES or (member, name) in _MOCK_UNREACHABLE:
+            continue
+        if not any((member, w) in MOCK_HITS for w in written):
+            ok = False
+            ctx.count(f"c03:selfcheck:FAILED:witness-does-not-reach:{member}:{name}")
+    for work in ("state.block_quote+attribution", "state.nest_line_block_lines+depth3",
+                 "state.nest_line_block_lines+group-then-line", "state.inline_text+markup", "state.build_table+rows",
+                 "inliner.problematic", "include.run", "state.build_table_row"):
+        if not any(m == work for (m, _d) in MOCK_HITS):
+            ok = False
+            ctx.count(f"c03:selfcheck:FAILED:no-witness-does:{work}")
+    for tag in _MUST_WALK:
+        if not WALKED_TAGS.get(tag):
+            ok = False
+            ctx.count(f"c03:selfcheck:FAILED:walker-never-met:{tag}")
+    if WALKED_TAGS.get("!mismatch"):
+        ok = False
+        ctx.count("c03:selfcheck:FAILED:walker-misses-nodes", WALKED_TAGS["!mismatch"])
+    ctx.count("c03:selfcheck:mock-reach:" + ("ok" if ok else "FAILED"))
+    return ok
+
+
+# ---- observation probes on the mocked state (which member ran on behalf of which directive, and did it do work)
+
+MOCK_HITS = {}            # (member, directive name) -> calls
+_DIRECTIVE_STACK = []     # names of the directives whose run() is on the stack (innermost last)
+
+
+def _hit(member, n=1):
+    key = (member, _DIRECTIVE_STACK[-1] if _DIRECTIVE_STACK else "-")
+    MOCK_HITS[key] = MOCK_HITS.get(key, 0) + n
+
+
+def _install_mock_probes():
+    """Observation only: the methods of MockState / MockStateMachine / MockInliner / MockIncludeDirective are
+    wrapped to count (member, running directive); the original is called unchanged and its result returned."""
+    import myst_parser.mocking as M
+    if getattr(M, "_c03_probed", False):
+        return
+    M._c03_probed = True
+
+    def wrap(cls, name, member, after=None):
+        orig = cls.__dict__.get(name)
+        if orig is None or not callable(orig):
+            return
+
+        def probe(self, *a, **k):
+            _hit(member)
+            res = orig(self, *a, **k)
+            if after is not None:
+                try:
+                    after(self, a, k, res)
+                except Exception:
+                    pass
+            return res
+
+        probe.__wrapped__ = orig
+        probe.__name__ = name
+        setattr(cls, name, probe)
+
+    def after_block_quote(self, a, k, res):
+        if any(_tag(c) == "attribution" for e in res for c in getattr(e, "children", ())):
+            _hit("state.block_quote+attribution")
+
+    def after_nest(self, a, k, res):
+        block = a[0]
+
+        def depth(b):
+            return 1 + max([depth(c) for c in b.children if _tag(c) == "line_block"] or [0])
+
+        def group_then_line(b):
+            ch = b.children
+            return any(_tag(ch[i]) == "line_block" and _tag(ch[i + 1]) == "line" for i in range(len(ch) - 1)) or \
+                any(group_then_line(c) for c in ch if _tag(c) == "line_block")
+        if depth(block) >= 3:
+            _hit("state.nest_line_block_lines+depth3")
+        if group_then_line(block):
+            _hit("state.nest_line_block_lines+group-then-line")
+
+    def after_inline(self, a, k, res):
+        if any(_tag(n) != "#text" for n in res[0]):
+            _hit("state.inline_text+markup")
+
+    def after_table(self, a, k, res):
+        _hit("state.build_table+rows", sum(1 for n in res.findall() if _tag(n) == "row"))
+
+    def parsed_for(nodes_):
+        """Mark what a nested parse produced on behalf of the running directive (innermost directive wins: its
+        nested_parse returns first).  Lets the walker tell that a node which is registered in `document.ids` but
+        is not in the tree was parsed for a directive that then dropped it."""
+        if not _DIRECTIVE_STACK:
+            return
+        name = _DIRECTIVE_STACK[-1]
+        for top in nodes_:
+            for n in top.findall():
+                if getattr(n, "_c03_parsed_for", None) is None:
+                    try:
+                        n._c03_parsed_for = name
+                    except Exception:
+                        pass
+
+    def after_nested_parse(self, a, k, res):
+        node = k.get("node", a[2] if len(a) > 2 else None)
+        if node is not None:
+            parsed_for(node.children)
+
+    def after_inliner_parse(self, a, k, res):
+        parsed_for(res[0])
+
+    S, SM, I = M.MockState, M.MockStateMachine, M.MockInliner
+    wrap(S, "nested_parse", "state.nested_parse", after_nested_parse)
+    wrap(S, "inline_text", "state.inline_text", after_inline)
+    wrap(S, "block_quote", "state.block_quote", after_block_quote)
+    wrap(S, "parse_target", "state.parse_target")
+    wrap(S, "parse_directive_block", "state.parse_directive_block")
+    wrap(S, "build_table", "state.build_table", after_table)
+    wrap(S, "build_table_row", "state.build_table_row")
+    wrap(S, "nest_line_block_lines", "state.nest_line_block_lines", after_nest)
+    wrap(SM, "get_source", "state_machine.get_source")
+    wrap(SM, "get_source_and_line", "state_machine.get_source_and_line")
+    wrap(I, "parse", "inliner.parse", after_inliner_parse)
+    wrap(I, "problematic", "inliner.problematic")
+    wrap(M.MockIncludeDirective, "run", "include.run")
+    for cls, label in ((S, "state"), (SM, "state_machine"), (I, "inliner")):
+        orig_ga = cls.__dict__.get("__getattr__")
+        if orig_ga is None:
+            continue
+
+        def ga(self, name, _o=orig_ga, _l=label):
+            if not name.startswith("__"):
+                _hit(f"{_l}.{name}")             # a member the mock does not implement (raises MockingError)
+            return _o(self, name)
+
+        cls.__getattr__ = ga
 
 
 class IdHistory:
@@ -757,12 +1323,59 @@ def _install_docinfo_listener(drv):
     drv._c03_listener = True
 
 
+# `{include}` / `{literalinclude}` need files.  Witness texts name them through the placeholder INC_DIR; `produce`
+# (so: search and replay alike) replaces it by a directory the harness fills on first use and removes at exit:
+# docutils backend - /verif/.scratch-c03inc-<pid> (absolute path: the source of a docutils case is "<string>");
+# Sphinx backend - `c03inc` inside the scratch source directory of the in-process application.
+INC_DIR = "@C03INC@"
+INC_FILES = {
+    "a.md": "# inc h\n\npara [^f] [x](#tgt)\n\n[^f]: note\n\n(tgt)=\n## sub\n\n```{note}\nn\n```\n\n---\n\n|a|b|\n|-|-|\n|1|2|\n",
+    "b.md": "b\n\n```{include} @C03INC@/a.md\n:heading-offset: 1\n```\n\n```{line-block}\nx\n  y\nz\n```\n",
+    "loop.md": "loop\n\n```{include} @C03INC@/loop.md\n```\n",
+    "frag.md": "before\n\n<!-- S -->\nkept *k*\n\n- item\n<!-- E -->\n\nafter\n",
+    "code.py": "def f():\n    pass\n# START\nx = 1\n# END\ny = 2\n",
+}
+_INC_MADE = {}
+
+
+def _inc_dir(backend):
+    import atexit
+    import shutil
+    if backend in _INC_MADE:
+        return _INC_MADE[backend][0]
+    if backend == "sphinx":
+        from gen import c02_lib as L
+        d, name = os.path.join(L.SphinxDriver.get().src, "c03inc"), "c03inc"
+        os.makedirs(d, exist_ok=True)        # removed with the driver's scratch directory
+    else:
+        d = name = os.path.join(_VERIF, ".scratch-c03inc-%d" % os.getpid())
+        os.makedirs(d, exist_ok=False)       # ours alone: never reuse / remove somebody else's directory
+        atexit.register(shutil.rmtree, d, True)
+    for fn, content in INC_FILES.items():
+        with open(os.path.join(d, fn), "w", encoding="utf-8") as f:
+            f.write(content.replace(INC_DIR, name))
+    _INC_MADE[backend] = (name, d)
+    return name
+
+
+def _materialise(case):
+    text = case["text"]
+    if INC_DIR in text:
+        try:
+            text = text.replace(INC_DIR, _inc_dir(case["backend"]))
+        except OSError as e:
+            raise HarnessError(f"cannot provide the include files: {e!r}") from e
+    return text
+
+
 def produce(case):
     """Run the implementation on a normalised case.  Returns (document, warnings_text); raises what it raises."""
     from gen import c02_lib as L
     _install_origin_marks()
     _install_directive_marks()
-    text, mode, exts, kw = case["text"], case["mode"], case["exts"], case["kw"]
+    _install_mock_probes()
+    del _DIRECTIVE_STACK[:]
+    text, mode, exts, kw = _materialise(case), case["mode"], case["exts"], case["kw"]
     try:
         cfg = L.make_config(mode, exts, **kw)
     except Exception as e:
@@ -775,7 +1388,39 @@ def produce(case):
     drv = L.SphinxDriver.get()
     _install_docinfo_listener(drv)
     _install_resolver_marks()
-    return (drv.parse if case["stage"] == "parse" else drv.publish)(text, cfg)
+    # `show_authors` on for the duration of the case: codeauthor / moduleauthor / sectionauthor return nothing
+    # otherwise (the shared driver is handed back as it was)
+    from docutils.parsers.rst import roles as _roles_mod
+    conf = drv.app.config
+    saved_authors = conf.show_authors
+    saved_roles = dict(_roles_mod._roles)      # `{role}` / `{default-role}` register process-wide: undo after the case
+    conf.show_authors = True
+    try:
+        return _produce_sphinx(drv, text, cfg, case["stage"])
+    finally:
+        conf.show_authors = saved_authors
+        _roles_mod._roles.clear()
+        _roles_mod._roles.update(saved_roles)
+
+
+def _produce_sphinx(drv, text, cfg, stage):
+    if stage == "parse":
+        return drv.parse(text, cfg)
+    # read phase, then what Builder.read_doc does before the write phase applies the post-transforms: the
+    # per-document scratch state of the environment is dropped (`apply_post_transforms` deep-copies it; the C / C++
+    # domains keep symbols there that refuse to be copied - in a real build they are gone by then)
+    doc, _ = drv.publish(text, cfg, post=False)
+    env = drv.app.env
+    try:
+        env.current_document = type(env.current_document)()
+        env.ref_context.clear()
+    except Exception as e:
+        raise HarnessError(f"cannot reset the environment's per-document state: {e!r}") from e
+    try:
+        env.apply_post_transforms(doc, "index")
+    finally:
+        env.current_document.docname = ""
+    return doc, drv.warnings_text()
 
 
 def run_case(case, want_obs=False):
@@ -793,7 +1438,8 @@ def run_case(case, want_obs=False):
             return ([], ["harness-limit:doctree-pickle"]) if want_obs else []
         fails = [_exception_failure(exc, case["stage"])]
         return (fails, obs) if want_obs else fails
-    fails = check_tree(doc, case["stage"], warn, history=lambda: trace_ids(case))
+    fails = check_tree(doc, case["stage"], warn, history=lambda: trace_ids(case),
+                       at_parse=lambda: {f["signature"] for f in run_case(dict(case, stage="parse"))})
     if want_obs:
         try:
             obs = observations(doc)
@@ -810,6 +1456,14 @@ FN_LABELS = ["1", "2", "3", "10", "a", "b", "c", "A", "note", "l"]
 HEAD_TEXTS = ["a", "b", "c", "a b", "A", "1", "note", "id1", "l", "x"]
 WORDS = ["a", "b", "c", "foo", "bar", "x", "lorem", "A"]
 ADMON = ["note", "tip", "warning", "important", "admonition T", "attention", "seealso"]
+# rST originals of the constructs MyST re-implements in mocking.py (real docutils state, through eval-rst)
+RST_MOCKED = [
+    "| a\n|   b\n| c\n|   d\n|     e\n| f", ".. epigraph::\n\n   q\n\n   -- w *x*",
+    ".. list-table:: T\n   :header-rows: 1\n\n   * - a\n     - b\n   * - c\n     - d",
+    ".. csv-table:: C\n   :header: x, y\n\n   1, 2", ".. figure:: u.png\n   :target: x_\n\n   cap\n\n   leg",
+    ".. role:: cr(emphasis)\n\n:cr:`t`", ".. |r| replace:: *x*\n\n|r|", ".. sidebar:: S\n   :subtitle: t\n\n   b",
+    ".. topic:: T *t*\n\n   b", ".. parsed-literal::\n\n   a *b*", ".. header:: h", ".. image:: u.png\n   :target: a_",
+]
 RST_SNIPPETS = [
     "a\n\n----\n\nb", ".. _a:\n\npara", ".. [#a] rst note\n\nref [#a]_", "a\n=\n\nb", "`a`_ and a_",
     ".. [1] one\n\nsee [1]_", ".. _l:\n.. _b:\n\nx", "+---+---+\n| a | b |\n+---+---+\n| c     |\n+---+---+",
@@ -821,11 +1475,13 @@ class DocGen:
     the lines of their children (\"> \" for quotes, indentation for list items / footnote and definition bodies,
     longer fences for outer directives)."""
 
-    def __init__(self, rng, maxdepth, maxblocks):
+    def __init__(self, rng, maxdepth, maxblocks, sphinx=False, structured=0.0):
         self.rng = rng
         self.maxdepth = maxdepth
         self.left = maxblocks
         self.tags = set()
+        self.sphinx = sphinx          # the document is for the Sphinx back end: Sphinx-only directives make sense
+        self.structured_p = structured    # share of blocks that are directives with structured bodies
 
     # ---- inline
     def pick(self, seq):
@@ -1078,10 +1734,266 @@ class DocGen:
             nxt = self.deflist(depth)
         return [self.pick(["{{#{}}}", "{{#{} .k}}", "{{#{} #b}}", "{{.k #{}}}"]).format(i)] + nxt
 
+    # ---- structured directive bodies: drive the node-building methods of MyST's mocked state (mocking.py)
+    def fence(self, depth, first_line, body):
+        """Wrap `body` lines as a directive; colon fence when the first line contains a backtick (a backtick fence
+        cannot have one in its info string), else either."""
+        colon = "`" in first_line or self.rng.random() < 0.3
+        self.tags.add("colon-directive" if colon else "directive")
+        f = (":" if colon else "`") * (3 + self.maxdepth - min(depth, self.maxdepth))
+        return [f + first_line] + body + [f]
+
+    def options(self, *cands):
+        """Each candidate option line with probability 1/2, followed by a blank line when any was taken."""
+        out = [c for c in cands if self.rng.random() < 0.5]
+        return out + ([""] if out or self.rng.random() < 0.3 else [])
+
+    def safe_body(self, lines):
+        if lines and lines[0].startswith(("---", ":", "{")):
+            return [self.pick(WORDS), ""] + lines
+        return lines
+
+    def line_block(self, depth):
+        self.tags.add("mock:line-block")
+        r = self.rng
+        n = self.pick([2, 3, 4, 5, 6, 8, 10])
+        ind, lines = self.pick([0, 0, 0, 2, 4]), []
+        for k in range(n):
+            if k and r.random() < 0.12:
+                lines.append("")
+            lines.append(" " * ind + (self.pick(WORDS) if r.random() < 0.75 else self.inline(2)))
+            ind = max(0, ind + self.pick([-6, -4, -2, -2, 0, 0, 2, 2, 2, 4, 1]))
+        return self.fence(depth, "{line-block}", lines)
+
+    def quote_directive(self, depth):
+        name = self.pick(["epigraph", "pull-quote", "highlights"])
+        self.tags.add("mock:" + name)
+        r = self.rng
+        body = self.blocks(depth + 1, "directive") if depth < self.maxdepth and r.random() < 0.5 \
+            else [self.inline()] + (["", self.inline(1)] if r.random() < 0.4 else [])
+        body = self.safe_body(body)
+        for _ in range(self.pick([0, 1, 1, 1, 2])):
+            dash = self.pick(["-- ", "--- ", "— ", "--", "-- "])
+            body += ["", dash + self.inline(self.pick([1, 2, 3]))]
+            if r.random() < 0.3:
+                body.append(self.pick(["", " " * len(dash), "  "]) + self.pick(WORDS))
+        if r.random() < 0.1:
+            body = ["", "-- " + self.pick(WORDS)]
+        return self.fence(depth, "{" + name + "}", body)
+
+    def list_table(self, depth):
+        self.tags.add("mock:list-table")
+        r = self.rng
+        ncol, nrow = self.pick([1, 2, 2, 3]), self.pick([1, 2, 2, 3, 4])
+        title = (" " + self.inline(2)) if r.random() < 0.5 else ""
+        body = self.options(":header-rows: " + self.pick(["0", "1", "1", "2"]),
+                            ":stub-columns: " + self.pick(["0", "1", "2"]),
+                            ":widths: " + self.pick(["auto", " ".join(["1"] * ncol), "1 2", "10 20 30"]),
+                            ":name: " + self.pick(IDS), ":align: " + self.pick(["left", "center"]))
+        for _ in range(nrow):
+            k = ncol if r.random() < 0.85 else self.pick([1, ncol + 1, max(1, ncol - 1)])
+            for c in range(k):
+                if depth < self.maxdepth and r.random() < 0.2:
+                    cell = self.blocks(depth + 1, "item")
+                else:
+                    cell = [self.pick(["", "x", self.atom(), self.inline(2)])]
+                mark = "* - " if c == 0 else "  - "
+                body.extend(self.indent(cell, mark, "    "))
+        if r.random() < 0.06:
+            body = body[:-1] + ["para instead of list"]
+        return self.fence(depth, "{list-table}" + title, body)
+
+    def csv_table(self, depth):
+        self.tags.add("mock:csv-table")
+        r = self.rng
+        ncol = self.pick([1, 2, 3])
+        delim = self.pick([",", ",", ",", ";"])
+
+        def cell():
+            c = self.pick(["x", "a b", self.atom(), self.atom(), "", "*e*"]).replace("\"", "'").replace("\n", " ")
+            return ("\"" + c + "\"") if (delim in c or r.random() < 0.2) else c
+
+        title = (" " + self.inline(2)) if r.random() < 0.5 else ""
+        body = self.options(":header: h, " + ", ".join(cell() for _ in range(ncol - 1)) if delim == "," and ncol > 1
+                            else ":header-rows: 1",
+                            ":header-rows: " + self.pick(["1", "2"]), ":stub-columns: " + self.pick(["1", "2"]),
+                            ":widths: " + self.pick(["auto", ", ".join(["1"] * ncol), "1 2"]),
+                            ":name: " + self.pick(IDS))
+        if delim != ",":
+            body = [":delim: " + delim] + (body or [""])
+        for _ in range(self.pick([1, 2, 3])):
+            k = ncol if r.random() < 0.8 else self.pick([1, ncol + 1])
+            body.append((delim + " ").join(cell() for _ in range(k)))
+        return self.fence(depth, "{csv-table}" + title, body)
+
+    def table_directive(self, depth):
+        self.tags.add("mock:table")
+        title = (" " + self.inline(2)) if self.rng.random() < 0.7 else ""
+        body = self.options(":name: " + self.pick(IDS), ":widths: " + self.pick(["auto", "1 2", "1 1 1"]),
+                            ":align: center")
+        return self.fence(depth, "{table}" + title, body + self.table())
+
+    def figure(self, depth):
+        r = self.rng
+        i = self.pick(IDS)
+        target = ":target: " + self.pick(["https://e.x", "https://e.x/a b", i + "_", "`" + i + " x`_", "#" + i,
+                                          "other.md", "_"])
+        if r.random() < 0.3:
+            self.tags.add("mock:image")
+            return self.fence(depth, "{image} u.png", self.options(target, ":name: " + i, ":alt: a")[:-1] or [target])
+        self.tags.add("mock:figure")
+        body = self.options(target, ":name: " + i, ":figclass: k", ":align: center")
+        k = r.random()
+        if k < 0.75:
+            body.append(self.inline())                       # caption
+        elif k < 0.85:
+            body.append("%")                                 # empty comment: no caption, legend only
+        else:
+            body.extend(self.hr())                           # not a paragraph: error branch
+        if r.random() < 0.6:                                  # legend
+            body.append("")
+            body.extend(self.blocks(depth + 1, "directive") if depth < self.maxdepth else [self.inline(1)])
+        return self.fence(depth, "{figure} u.png", body)
+
+    def titled(self, depth):
+        name = self.pick(["admonition", "topic", "sidebar", "rubric", "contents", "admonition", "topic"])
+        self.tags.add("mock:" + name)
+        r = self.rng
+        title = self.inline(self.pick([1, 2, 3, 4]))
+        if name == "rubric":
+            return self.fence(depth, "{rubric} " + title, self.options(":name: " + self.pick(IDS), ":class: k")[:-1])
+        if name == "contents":
+            return self.fence(depth, "{contents} " + title,
+                              self.options(":depth: 2", ":local:", ":backlinks: " + self.pick(["entry", "top", "none"]))[:-1])
+        opts = self.options(":name: " + self.pick(IDS), ":class: k",
+                            *([":subtitle: " + self.inline(2)] if name == "sidebar" else []))
+        inner = self.blocks(depth + 1, "directive") if depth < self.maxdepth else [self.inline()]
+        return self.fence(depth, "{" + name + "} " + title, opts + self.safe_body(inner))
+
+    def body_directive(self, depth):
+        r = self.rng
+        name = self.pick(["compound", "container k", "class k", "parsed-literal", "header", "footer", "role",
+                          "meta", "replace x", "unicode 0xA9", "date", "title " + self.inline(2), "sectnum",
+                          "target-notes", "raw html", "default-role " + self.pick(["emphasis", "strong", "nope"]),
+                          "code python", "include"])
+        key = name.split()[0]
+        self.tags.add("mock:" + key)
+        if key in ("compound", "container", "class", "header", "footer"):
+            inner = self.blocks(depth + 1, "directive") if depth < self.maxdepth else [self.inline()]
+            return self.fence(depth, "{" + name + "}", self.safe_body(inner) if r.random() < 0.9 else [])
+        if key == "parsed-literal":
+            return self.fence(depth, "{parsed-literal}", [self.inline(), "  " + self.inline(2)])
+        if key == "role":
+            base = self.pick(["emphasis", "strong", "raw", "code", "nope", "math", ""])
+            rn = self.pick(["r1", "r2", "myrole"])
+            opts = self.options(":class: k", *([":format: html"] if base == "raw" else []),
+                                *([":language: python"] if base == "code" else []))[:-1]
+            return self.fence(depth, "{role} " + rn + (f"({base})" if base else ""), opts) + \
+                ["", "{" + rn + "}`x " + self.pick(WORDS) + "`"]
+        if key == "meta":
+            return self.fence(depth, "{meta}", [":description: " + self.pick(WORDS), ":keywords: a, b"])
+        if key == "raw":
+            return self.fence(depth, "{raw} html", ["<hr>"])
+        if key == "code":
+            return self.fence(depth, "{code} python", self.options(":number-lines:", ":name: " + self.pick(IDS)) + ["pass"])
+        if key == "include":
+            return self.fence(depth, "{include} " + INC_DIR + "/" + self.pick(["a.md", "b.md", "frag.md", "loop.md",
+                                                                              "code.py", "nope.md"]),
+                              self.options(":heading-offset: 1", ":literal:", ":start-after: S", ":start-line: 1",
+                                           ":code: python")[:-1])
+        return self.fence(depth, "{" + name + "}", [])
+
+    def sphinx_directive(self, depth):
+        r = self.rng
+        i = self.pick(IDS)
+        name = self.pick(["glossary", "glossary", "versionadded", "deprecated", "versionchanged", "seealso", "hlist",
+                          "only", "only", "py:function", "py:function", "py:class", "option", "centered",
+                          "code-block", "productionlist", "toctree", "acks", "describe", "c:function", "js:function",
+                          "confval", "tabularcolumns", "rst-class", "math", "literalinclude", "codeauthor", "figure-md"])
+        self.tags.add("mock:" + name)
+        can = depth < self.maxdepth
+
+        def inner():
+            return self.safe_body(self.blocks(depth + 1, "directive") if can else [self.inline()])
+
+        if name == "glossary":
+            body = self.options(":sorted:")
+            for _ in range(self.pick([1, 2, 3])):
+                for _t in range(self.pick([1, 1, 2])):
+                    body.append(self.pick([i, self.pick(HEAD_TEXTS), self.inline(1)]) +
+                                self.pick(["", "", " : k", " : k1 : k2"]))
+                if r.random() < 0.85:
+                    body.extend(self.indent(self.blocks(depth + 1, "definition") if can else [self.inline()],
+                                            "  ", "  "))
+                body.append("")
+            return self.fence(depth, "{glossary}", body[:-1])
+        if name in ("versionadded", "deprecated", "versionchanged"):
+            arg = " 1." + self.pick(["0", "1"]) + (" " + self.inline(2) if r.random() < 0.4 else "")
+            return self.fence(depth, "{" + name + "}" + arg, inner() if r.random() < 0.7 else [])
+        if name == "seealso":
+            return self.fence(depth, "{seealso}" + (" " + self.inline(2) if r.random() < 0.3 else ""), inner())
+        if name in ("hlist", "acks"):
+            body = self.listblock(depth, False) if can and r.random() < 0.85 else [self.inline()]
+            return self.fence(depth, "{" + name + "}", ([":columns: 3", ""] if name == "hlist" and r.random() < 0.5 else []) + body)
+        if name == "only":
+            body = inner()
+            if r.random() < 0.6:
+                body = self.heading(0) + [""] + body + [""] + self.heading(0) + ["", self.inline(1)]
+            return self.fence(depth, "{only} " + self.pick(["html", "latex", "html or latex", "not html"]), body)
+        if name in ("py:function", "py:class", "c:function", "js:function", "describe", "option", "confval"):
+            sig = {"py:function": self.pick(["f(x, y=1)", "f()", "a(b: int) -> str"]), "py:class": "C(a)",
+                   "c:function": "int " + self.pick(["f", "g"]) + "(int a)", "js:function": "jf(a)",
+                   "describe": "thing " + self.inline(1), "option": "-" + self.pick(["a", "b"]) + " <x>",
+                   "confval": "cv" + i}[name]
+            body = self.options(":no-index:", *([":async:"] if name == "py:function" else []))
+            body.append(self.inline())
+            if r.random() < 0.8:
+                body += [""] + [f for f in [":param x: " + self.inline(2), ":type x: int", ":param int y: " + self.atom(),
+                                            ":returns: " + self.inline(1), ":rtype: str", ":raises E: " + self.atom(),
+                                            ":var v: " + self.atom(), ":other: " + self.atom()] if r.random() < 0.5]
+            if can and r.random() < 0.5:
+                body += [""] + self.blocks(depth + 1, "directive")
+            return self.fence(depth, "{" + name + "} " + sig, body)
+        if name == "centered":
+            return self.fence(depth, "{centered} " + self.inline(2), [])
+        if name == "code-block":
+            return self.fence(depth, "{code-block} python",
+                              self.options(":caption: " + self.inline(2), ":name: " + i, ":linenos:") + ["pass"])
+        if name == "productionlist":
+            return self.fence(depth, "{productionlist} " + self.pick([i + ": x `" + i + "`", i + ": y", "grp"]), [])
+        if name == "toctree":
+            return self.fence(depth, "{toctree}", self.options(":caption: " + self.inline(1), ":hidden:") +
+                              [self.pick(["index", "other", "T <index>", "https://e.x"])])
+        if name == "math":
+            return self.fence(depth, "{math}", [":label: " + self.pick(["l", "a", i]), "", "x"])
+        if name == "literalinclude":
+            return self.fence(depth, "{literalinclude} " + INC_DIR + "/code.py", self.options(":caption: " + self.inline(1),
+                                                                                              ":lines: 1-2")[:-1])
+        if name == "figure-md":
+            return self.fence(depth, "{figure-md} " + i, ["![a](u.png)", "", self.inline()])
+        if name == "rst-class":
+            return self.fence(depth, "{rst-class} k", inner() if r.random() < 0.5 else [])
+        return self.fence(depth, "{" + name + "} " + self.pick(["|l|l|", "A <a@b.c>"]), [])
+
+    def structured(self, depth):
+        """One directive with a structured body (see MOCK_USE_CORE / MOCK_USE_SPHINX)."""
+        gens = [self.line_block, self.line_block, self.quote_directive, self.quote_directive, self.list_table,
+                self.csv_table, self.table_directive, self.figure, self.titled, self.titled, self.body_directive]
+        if self.sphinx:
+            gens += [self.sphinx_directive] * 5
+        out = self.pick(gens)(depth)
+        if self.rng.random() < 0.1:                          # the rST original of a mocked construct next to it
+            self.tags.add("mock:eval-rst")
+            f = "`" * (3 + self.maxdepth - min(depth, self.maxdepth))
+            out += ["", f + "{eval-rst}"] + self.pick(RST_MOCKED).split("\n") + [f]
+        return out
+
     # ---- block sequence
     def block(self, depth, where):
         r = self.rng
         self.left -= 1
+        if self.structured_p and r.random() < self.structured_p:
+            return self.structured(depth)
         can_nest = depth < self.maxdepth and self.left > 0
         k = r.random()
         if can_nest and k < 0.42:
@@ -1206,12 +2118,20 @@ KW_CHOICES = [
 ]
 
 
-def gen_case(rng, tier, i):
-    """One generated base case (stage is filled in by the caller: every case is checked at both stages)."""
+STRUCTURED_SHARE = 0.13
+
+
+def gen_case(rng, tier, i, structured=0.0):
+    """One generated base case (stage is filled in by the caller: every case is checked at both stages).
+    `structured`: share of blocks that are directives with structured bodies (the search passes 0.13; the default
+    keeps the documents - and the random stream - of the correspondence corpus of props/C03.py as they were)."""
     thorough = tier == "thorough"
     maxdepth = rng.choice([2, 3, 4, 6]) if not thorough else rng.choice([2, 3, 4, 6, 8, 10])
     maxblocks = rng.choice([4, 8, 12, 16]) if not thorough else rng.choice([4, 8, 12, 20, 28])
-    g = DocGen(rng, maxdepth, maxblocks)
+    backend = None
+    if structured:
+        backend = "sphinx" if rng.random() < 0.35 else "docutils"       # decided first: Sphinx-only directives
+    g = DocGen(rng, maxdepth, maxblocks, sphinx=backend == "sphinx", structured=structured)
     text = g.document()
     m = rng.random()
     mode = "myst" if m < 0.82 else ("gfm" if m < 0.92 else "commonmark")
@@ -1222,7 +2142,8 @@ def gen_case(rng, tier, i):
         exts = []
     else:
         exts = [x for x in ALL_EXTS if rng.random() < 0.65]
-    backend = "sphinx" if rng.random() < 0.35 else "docutils"
+    if backend is None:
+        backend = "sphinx" if rng.random() < 0.35 else "docutils"
     kw = {}
     for name, vals in KW_CHOICES:
         p = 0.45 if name in ("footnote_sort", "heading_anchors") else 0.07
@@ -1317,6 +2238,282 @@ FIXED_WITNESSES = (
     # pending_xref's inner node, MystReferenceResolver keeps that node)
     + _w("[t](#nope){#k} [u](#k)\n")
 )
+
+
+# ---- structured bodies for every directive that reaches the mocked state (MOCK_USE_CORE / MOCK_USE_SPHINX)
+
+def _d(*lines):
+    return "\n".join(lines) + "\n"
+
+
+# (key, backends, text): docutils-core directives run on both back ends (Sphinx overrides several of the classes)
+MOCK_DOCS = [
+    # -- {line-block}: MockState.nest_line_block_lines / _nest_line_block_segment
+    # an indented group FOLLOWED by a less indented line, twice (a flushed group must not be reused)
+    ("line-block:groups", None, _d(
+        "```{line-block}", "one", "  two", "three", "  four", "  five", "six", "```")),
+    # leading indented line, four levels, blank lines between groups, dedent by two levels, trailing group
+    ("line-block:levels", None, _d(
+        "```{line-block}", "  lead *in*", "a", "  b", "    c", "      d [^n]", "    e", "", "  f", "g", "",
+        "    h", "  i", "j", "      k", "```", "", "[^n]: x")),
+    # colon fence inside a block quote, backtick fence inside a list item, the rST construct through eval-rst
+    ("line-block:nested", None, _d(
+        "> :::{line-block}", "> x", ">   y", "> z", ">   w", ">     v", ">   u", "> :::", "",
+        "- ```{line-block}", "  p", "    q", "  r", "    s", "  ```", "",
+        "```{eval-rst}", "| a", "|   b", "| c", "|   d", "```")),
+    # -- {epigraph} {pull-quote} {highlights}: MockState.block_quote (+ inline_text for the attribution)
+    ("block-quote:attribution", None, _d(
+        ":::{epigraph}", "Para *one*.", "", "Para two.", "", "-- Author **B** [^n] {pep}`x` `c`", ":::", "",
+        "```{pull-quote}", "", "-- only an attribution", "```", "",
+        ":::{highlights}", "- item", "", "text", "", "--- first *attr*", "", "-- second attr", "continued", ":::", "",
+        "```{epigraph}", "no attribution", "-- not one (no blank line before)", "```", "",
+        "[^n]: note")),
+    ("block-quote:nested", None, _d(
+        "> ```{epigraph}", "> q", ">", "> — em dash *w*", ">   more", "> ```", "",
+        "1. ````{pull-quote}", "   ```{note}", "   n", "   ```", "", "   -- a *b*", "   ````", "",
+        "```{eval-rst}", ".. epigraph::", "", "   q", "", "   -- w *x*", "```")),
+    # -- tables: list-table (nested_parse + inline_text title), csv-table (build_table / build_table_row,
+    #    get_source), table (nested markdown table)
+    ("tables:full", None, _d(
+        ":::{list-table} Title *em* `c`", ":header-rows: 1", ":stub-columns: 1", ":widths: 10 20 30", ":name: lt", "",
+        "* - h1", "  - h2", "  - h3", "* - a", "  - b [x](#lt)", "  - - nested", "    - list",
+        "* - ```{note}", "    in cell", "    ```", "  - $m$", "  - c", ":::", "",
+        "```{csv-table} CSV **t**", ":header: A, \"B *x*\", C", ":widths: auto", ":stub-columns: 1",
+        ":header-rows: 1", "", "h1, h2, h3", "\"a, b\", c, [^n]", "d, \"e", "", "f\", g", "```", "",
+        "```{table} Table *title* [^n]", ":name: tb", ":align: center", ":widths: 1 2", "",
+        "| a | b |", "|---|---|", "| 1 | 2 |", "```", "", "[^n]: x")),
+    ("tables:shapes", None, _d(
+        "```{csv-table}", "a,b", "c", "```", "",
+        ":::{list-table}", ":widths: 1 2", "", "* - a", "* - b", "  - c", ":::", "",
+        "```{list-table}", "* - a", "  - b", "* - c", "  - d", "```", "",
+        "```{table}", "not a table", "```", "",
+        "> ```{csv-table} T", "> :delim: ;", "> :widths: 1, 2", ">", "> a;b", "> c;*d*", "> ```", "",
+        "- ```{list-table}", "  :header-rows: 1", "", "  * - x", "  * - y", "  ```", "",
+        "```{eval-rst}", ".. list-table:: T", "   :header-rows: 1", "", "   * - a", "     - b", "   * - c", "     - d",
+        "", ".. csv-table:: C", "   :header: x, y", "", "   1, 2", "```")),
+    # -- {figure} (nested_parse: caption + legend; parse_target) and {image} :target: (URL and `name_` forms)
+    ("figure:legend", None, _d(
+        "```{figure} u.png", ":target: https://e.x/a b", ":name: fig", ":alt: alt", ":figclass: k", ":width: 50%", "",
+        "Caption *em* [^n]", "", "Legend para one.", "", "- legend list", "", "| a |", "|---|", "| 1 |", "```", "",
+        "```{image} u.png", ":target: https://e.x", "```", "",
+        "```{image} u.png", ":target: fig_", ":name: img", "```", "",
+        ":::{image} u.png", ":target: `some name`_", ":::", "",
+        "```{figure} u.png", ":target: fig_", "", "- not a caption", "```", "", "[^n]: x")),
+    ("figure:nested", None, _d(
+        "- :::{figure} u.png", "  cap", "", "  leg", "  :::", "",
+        "> ```{figure} u.png", "> :target: img_", ">", "> %", ">", "> legend only", "> ```", "",
+        "```{eval-rst}", ".. figure:: u.png", "   :target: x_", "", "   cap", "", "   leg", "",
+        ".. _x: https://e.x", "```")),
+    # -- titles through MockState.inline_text -> MockInliner.parse / problematic
+    ("titles:inline", None, _d(
+        "# H", "",
+        ":::{admonition} Title *em* **s** `c` [l](#h) {abbr}`a (b)` [^n] {pep}`x`", ":class: k", ":name: adm", "",
+        "body", ":::", "",
+        ":::{topic} Topic *t* $m$ {nope}`x`", "tbody", "", "- l", ":::", "",
+        "```{sidebar} Side **s**", ":subtitle: Sub *t* [x](https://e.x)", "", "sbody", "```", "",
+        "```{rubric} Rubric *r* [^n]", ":name: rub", "```", "",
+        ":::{contents} Contents *c* {rfc}`y`", ":depth: 2", ":local:", ":backlinks: entry", ":::", "",
+        "## H2", "",
+        "::::{note}", ":class: x", "", "> :::{topic} In *q*", "> b", "> :::", "::::", "",
+        "```{attention}", "a", "```", "```{caution}", "a", "```", "```{danger}", "a", "```", "```{error}", "a", "```",
+        "```{hint}", "a", "```", "```{important}", "a", "```", "```{tip}", "a", "```", "```{warning}", "a", "```", "",
+        "[^n]: note")),
+    # -- bodies: parsed-literal (inline_text), compound / container / class (nested_parse), role
+    #    (parse_directive_block), default-role
+    ("bodies:misc", None, _d(
+        ":::{parsed-literal}", "lit *em* [l](https://e.x) {pep}`8` {pep}`x`", "  second $m$", ":::", "",
+        "```{compound}", "para", "", "    code", "", "- list", "```", "",
+        "::::{container} k1 k2", ":name: cont", "para", "", ":::{note}", "inner", ":::", "::::", "",
+        "```{class} klass", "```", "", "Para after class.", "",
+        "```{class} k2", "> quoted", "```", "",
+        "```{role} myrole(emphasis)", ":class: special", "```", "", "{myrole}`text` and {nope2}`x`", "",
+        "```{role} raw-html(raw)", ":format: html", "```", "", "{raw-html}`<b>x</b>`", "",
+        "```{role} bad(nonexistent)", "```", "",
+        "```{role} plain", "```", "", "{plain}`p`", "",
+        "```{default-role} emphasis", "```")),
+    # -- document parts and leaves: title meta sectnum header footer target-notes raw replace unicode date code math
+    ("parts:misc", None, _d(
+        "```{title} Doc *title*", "```", "",
+        "```{meta}", ":description: d", ":keywords: k1, k2", "```", "",
+        "```{sectnum}", ":depth: 2", "```", "",
+        "```{header}", "Header *h* [^n]", "```", "",
+        "```{footer}", "Footer **f**", "", "- x", "```", "",
+        "# A", "", "[x](https://e.x) [y](https://e.y)", "",
+        "```{target-notes}", "```", "",
+        "```{raw} html", "<hr>", "```", "", "```{raw} latex", "\\x", "```", "",
+        "```{replace} text", "```", "", "```{unicode} 0xA9", "```", "", "```{date} %Y", "```", "",
+        "```{code} python", ":number-lines: 2", ":name: c1", "", "def f(): pass", "```", "",
+        "```{math}", ":label: eq1", ":name: m1", "", "a = b", "```", "",
+        "```{restructuredtext-test-directive}", "x", "```", "",
+        "## B", "", "[^n]: x")),
+    # -- the rST originals of the same constructs (real docutils state) next to a MyST header
+    ("rst:originals", None, _d(
+        "```{eval-rst}", ".. |c| unicode:: 0xA9", ".. |d| date::", ".. |r| replace:: *x*",
+        ".. |i| image:: u.png", "   :target: https://e.x", "", "|c| |d| |r| |i|", "",
+        ".. role:: cr(emphasis)", "", ":cr:`t`", "", ".. header:: hh", "",
+        ".. sidebar:: S *s*", "   :subtitle: sub", "", "   b", "", ".. topic:: T", "", "   b", "",
+        ".. parsed-literal::", "", "   a *b*", "", ".. compound::", "", "   a", "", "   b", "",
+        ".. container:: k", "", "   a", "```", "",
+        "```{header}", "outer h", "```")),
+    # -- directives run from a MyST substitution (front matter; rendered once per use, block and inline)
+    ("substitution:directives", None, _d(
+        "---", "myst:", "  substitutions:", "    u: |", "      ```{unicode} 0xA9", "      ```",
+        "    r: |", "      ```{replace} *x*", "      ```", "    dt: |", "      ```{date} %Y", "      ```",
+        "    lb: |", "      ```{line-block}", "      a", "        b", "      c", "      ```",
+        "    ep: |", "      ```{epigraph}", "      q", "", "      -- w *x*", "      ```", "---",
+        "{{ u }} {{ r }} {{ dt }} and {{ lb }}", "", "{{ lb }}", "", "{{ ep }}", "", "> {{ ep }}")),
+    # -- {include}: MockIncludeDirective (nested render, literal, code, clipping, circular, nested include)
+    ("include:files", None, _d(
+        "# top", "",
+        "```{include} " + INC_DIR + "/a.md", "```", "",
+        "```{include} " + INC_DIR + "/b.md", ":heading-offset: 1", "```", "",
+        "```{include} " + INC_DIR + "/loop.md", "```", "",
+        "```{include} " + INC_DIR + "/frag.md", ":start-after: <!-- S -->", ":end-before: <!-- E -->", "```", "",
+        "```{include} " + INC_DIR + "/code.py", ":literal:", ":number-lines: 3", ":name: lit", "```", "",
+        "```{include} " + INC_DIR + "/code.py", ":code: python", ":start-after: START", ":end-before: END", "```", "",
+        "> ```{include} " + INC_DIR + "/frag.md", "> :start-line: 2", "> :end-line: 6", "> ```", "",
+        "```{include} " + INC_DIR + "/missing.md", "```")),
+    # -- directives that validate the content they had parsed and drop it (only an error is returned): the
+    #    document's registries keep the dropped footnote references (inherited from docutils / Sphinx; one open
+    #    finding per directive: backref:dangling:dropped-by:directive:<name>)
+    #    (a footnote reference inside: the footnote's backref dangles; an id inside that a footnote reference outside
+    #    resolves to: its refid dangles)
+    ("dropped-content:table", None, _d(
+        "```{table} T [^a]", "not a table [^b] [i]{#l}", "```", "", "[^a]: x", "", "[^b]: y", "", "[^l]")),
+    ("dropped-content:list-table", None, _d(
+        "```{list-table} T [^a]", "not a list [^b] [i]{#l}", "```", "", "[^a]: x", "", "[^b]: y", "", "[^l]")),
+    ("dropped-content:csv-table", None, _d(
+        "```{csv-table} T [^a] [i]{#l}", ":header-rows: 5", "", "a, b", "```", "", "[^a]: x", "", "[^l]")),
+    ("dropped-content:figure", None, _d(
+        "````{figure} u.png", "- not a caption [^a] [i]{#l}", "", "```{warning}", "inner [^b]", "```", "````", "",
+        "[^a]: x", "", "[^b]: y", "", "[^l]")),
+    # ================= Sphinx only
+    ("dropped-content:hlist", ("sphinx",), _d(
+        "```{hlist}", "not a list [^a] [i]{#l}", "```", "", "[^a]: x", "", "[^l]")),
+    ("dropped-content:acks", ("sphinx",), _d(
+        "```{acks}", "not a list [^a] [i]{#l}", "```", "", "[^a]: x", "", "[^l]")),
+    ("dropped-content:figure-md", ("sphinx",), _d(
+        "```{figure-md}", "not an image [^a] [i]{#l}", "```", "", "[^a]: x", "", "[^l]")),
+    # Sphinx' TypedField.make_field keeps a field's description only if it has text (`astext()`): a description that is
+    # just a not yet numbered footnote reference is dropped
+    ("dropped-content:object-description", ("sphinx",), _d(
+        "```{py:function} f(n)", "", ":param n: [^a]", "```", "", "```{c:function} int g(int n)", "", ":param n: [^b]", "```", "",
+        "[^a]: x", "", "[^b]: y")),
+    # Sphinx' OnlyNodeTransform removes the content of an `{only}` whose expression is false for the builder,
+    # targets inside included; references from outside keep their refid (inherited from Sphinx)
+    ("only:removed-target", ("sphinx",), _d(
+        "```{only} latex", "(c)=", "para [^a]", "```", "", "[x](#c)", "", "[^a]: x")),
+    # docutils' Contents removes its pending node (with the title parsed by inline_text) when there is no section
+    ("contents:removed-title", ("docutils",), _d("```{contents} T [^a]", "```", "", "[^a]: x")),
+    # content / caption that is not empty but parses to NO node as Markdown (a link reference definition): docutils'
+    # Figure.run takes node[0], Sphinx' container_wrapper takes parsed[0] (cannot happen in rST)
+    ("empty-parse:figure", None, _d("```{figure} u.png", "", "[a]: b", "```")),
+    ("empty-parse:code-caption", ("sphinx",), _d("```{code-block} python", ":caption: \"[a]: b\"", "", "pass", "```")),
+    # a `{contents}` with :local: whose pending node is dropped with the content of an enclosing directive: the
+    # Contents transform still runs on it
+    ("dropped-content:pending", None, _d("````{list-table}", "not a list", "", "```{contents}", ":local:", "```", "````")),
+    # Sphinx 8.2 ProductionList.run: max() of no productions (group name only); the same in rST
+    ("productionlist:group-only", ("sphinx",), _d("```{productionlist} g", "```")),
+    ("sphinx:glossary", ("sphinx",), _d(
+        "```{glossary}", ":sorted:", "", "zeta : class1 : class2", "  def *z*", "", "alpha", "beta", "  shared def", "",
+        "  - list", "", "gamma *g* [^n]", "  def with {term}`alpha`", "```", "",
+        ":::{glossary}", "t1", "", "t2", "  d", "  # h", "", "alpha", "  again", ":::", "",
+        "> ```{glossary}", "> q1 : k", ">   d", "> ```", "", "[^n]: x")),
+    ("sphinx:productionlist", ("sphinx",), _d(
+        ":::{productionlist} a: b `c` | d", ":::", "",
+        ":::{productionlist} g: `a`", ":::", "", "{token}`a`")),
+    ("sphinx:paragraph-level", ("sphinx",), _d(
+        "```{versionadded} 1.0", "Added *text* [^n]", "", "- more", "```", "",
+        "```{versionchanged} 2.0 inline *arg* [^n]", "body", "```", "",
+        "```{versionchanged} 2.1", "```", "",
+        "```{deprecated} 3.0 Gone *soon*", "```", "",
+        "```{deprecated} 3.1", "Use *other*.", "", "Second para.", "```", "",
+        "```{versionadded} 3.2 inline only", "```", "",
+        "```{versionremoved} 3.3 inline", "- list body", "```", "",
+        "```{versionremoved} 4.0", "> q", "```", "",
+        "```{versionadded} 5.0", "- list first", "```", "",
+        "```{seealso}", "{py:func}`f`", "", "t", ": d", "```", "",
+        "```{seealso} inline *arg*", "```", "",
+        "```{centered} Centered *c* [^n]", "```", "",
+        "```{hlist}", ":columns: 3", "", "- a", "- b *x*", "- c", "- d", "```", "",
+        "```{hlist}", "not a list", "```", "",
+        "```{acks}", "- A", "- B", "```", "",
+        "```{acks}", "no list", "```", "",
+        "```{codeauthor} A *B* <a@b.c>", "```", "", "```{moduleauthor} M", "```", "", "```{sectionauthor} S", "```", "",
+        "```{rubric} Sphinx rubric *r*", ":heading-level: 2", "```", "",
+        "[^n]: x")),
+    ("sphinx:structure", ("sphinx",), _d(
+        "```{tabularcolumns} |l|l|", "```", "", "| a | b |", "|---|---|", "| 1 | 2 |", "",
+        "```{highlight} python", ":linenothreshold: 2", "```", "",
+        "```{index} single: a; b", ":name: ix", "```", "", "```{index} pair: x; y", "```", "",
+        "# Top", "",
+        "````{only} html", "## In only", "", "text", "", "### Deeper", "", "```{note}", "n", "```", "````", "",
+        "````{only} latex or html", "para", "", "```{only} not html", "# H in nested only", "```", "````", "",
+        "```{toctree}", ":caption: Cap *c*", ":maxdepth: 1", ":name: toc", "", "index", "Title <index>",
+        "https://e.x", "missing", "```", "",
+        "```{code-block} python", ":caption: Code *cap* [^n]", ":name: cb", ":linenos:", ":emphasize-lines: 1", "",
+        "pass", "```", "",
+        "```{sourcecode} c", ":caption: x", "", "int x;", "```", "",
+        "```{literalinclude} " + INC_DIR + "/code.py", ":caption: Lit *c*", ":lines: 1-2", ":name: li", "```", "",
+        "```{math}", ":label: eq1", ":nowrap:", "", "a", "```", "",
+        "```{default-domain} py", "```", "",
+        "```{rst-class} k", "```", "", "para", "",
+        "```{rst-class} k3", "> q", "```", "",
+        "```{cssclass} k2", "- l", "```", "",
+        "```{figure-md} fm", ":class: c", "", "![alt](u.png){#im}", "", "Caption *c*", "```", "",
+        "```{figure-md}", "not image", "```", "",
+        "```{default-role} any", "```", "", "[^n]: x")),
+    ("sphinx:py", ("sphinx",), _d(
+        "```{py:module} mod", ":synopsis: syn", ":platform: p", ":deprecated:", "```", "",
+        "```{py:currentmodule} mod", "```", "",
+        "````{py:function} f(x: int, y=1) -> str", ":async:", "", "Desc *d* [^n].", "",
+        ":param x: the x [^n]", ":type x: int", ":param int y: the y", ":returns: r", ":rtype: str",
+        ":raises ValueError: bad", ":var v: v", ":unknownfield: u", "", "# heading in desc", "",
+        "```{note}", "n", "```", "````", "",
+        "`````{py:class} C(a)", ":final:", "", "doc", "",
+        "````{py:method} m(self)", ":classmethod:", "", ":param self: s", "````", "",
+        "````{py:attribute} attr", ":type: int", ":value: 1", "````", "",
+        "```{py:property} p", "```", "", "```{py:staticmethod} sm()", "```", "", "```{py:classmethod} cm()", "```", "",
+        "```{py:decoratormethod} dm", "```", "`````", "",
+        "```{py:data} D", ":type: int", "```", "", "```{py:decorator} deco(x)", "```", "",
+        "```{py:exception} E", "```", "", "```{py:type} T", ":canonical: int", "```", "",
+        "```{function} g()", ":param a: b", "```", "", "[^n]: x")),
+    ("sphinx:c-cpp", ("sphinx",), _d(
+        "```{c:function} int f(int a)", ":param a: x", ":returns: r", "```", "",
+        "````{c:struct} S", "```{c:member} int m", "```", "````", "",
+        "```{c:macro} M(x)", "```", "", "````{c:enum} E", "```{c:enumerator} A", "```", "````", "",
+        "```{c:type} T", "```", "", "```{c:union} U", "```", "", "```{c:var} int v", "```", "",
+        "```{c:alias} f", "```", "",
+        "```{c:namespace} ns", "```", "", "```{c:namespace-push} p", "```", "", "```{c:namespace-pop}", "```", "",
+        "````{cpp:class} K", "```{cpp:function} void f(int a)", ":param a: x", ":tparam T: t", ":throws E: e", "```", "",
+        "```{cpp:member} int m", "```", "", "```{cpp:var} int v", "```", "", "```{cpp:type} T = int", "```", "",
+        "```{cpp:enum} E", "```", "", "```{cpp:enum-class} EC", "```", "", "```{cpp:enum-struct} ES", "```", "",
+        "```{cpp:enumerator} EN", "```", "", "```{cpp:union} U", "```", "", "```{cpp:struct} S", "```", "",
+        "```{cpp:concept} template<typename T> C", "```", "", "```{cpp:alias} K", "```", "````", "",
+        "```{cpp:namespace} N", "```", "", "```{cpp:namespace-push} P", "```", "", "```{cpp:namespace-pop}", "```")),
+    ("sphinx:js-rst-std", ("sphinx",), _d(
+        "```{js:module} jm", "```", "",
+        "````{js:class} JC(a)", ":param a: x", "", "```{js:method} m()", ":returns: r", "```", "",
+        "```{js:attribute} at", "```", "````", "",
+        "```{js:function} jf(a, b)", ":param a: x", ":throws E: e", "```", "", "```{js:data} jd", "```", "",
+        "````{rst:directive} mydir", "desc", "", "```{rst:directive:option} opt", ":type: t", "```", "````", "",
+        "```{rst:role} myr", "desc *r*", "```", "",
+        "```{program} prog", "```", "",
+        "```{option} -a <x>, --all", "Desc *o* [^n]", "```", "", "```{cmdoption} -b", "```", "",
+        "```{envvar} EV", "d", "```", "",
+        "```{confval} cv", ":type: int", ":default: 1", "", "d *x*", "```", "",
+        "```{describe} thing *x*", "body", "", ":param a: b", "```", "", "```{object} obj", "```", "", "[^n]: x")),
+]
+MOCK_DOCS = [(d[0], d[1], d[2]) for d in MOCK_DOCS]
+
+MOCK_WITNESSES = []
+for _key, _backs, _text in MOCK_DOCS:
+    MOCK_WITNESSES += _w(_text, backends=_backs or ("docutils", "sphinx"))
+
+# FIXED_WITNESSES is also part of the correspondence corpus of props/C03.py (model vs implementation on the static
+# grammar; its O_directive check assumes a directive only appends to the current node, which {header} / {footer} /
+# {only} do not).  The structured directive bodies are search-only: `search` runs ALL_WITNESSES.
+ALL_WITNESSES = FIXED_WITNESSES + MOCK_WITNESSES
 
 
 # ------------------------------------------------------------------------------------------------ search / replay
@@ -1427,13 +2624,19 @@ def search(ctx):
             raise
         except Exception:
             ctx.count("c03:suspect-not-understood")
-    for case in FIXED_WITNESSES:
+    MOCK_HITS.clear()
+    WALKED_TAGS.clear()
+    for case in ALL_WITNESSES:
         ctx.count("c03:source:fixed")
         rep.run(case)
+    selfcheck_mock_table(ctx)
+    selfcheck_mock_reach(ctx)
+    for (member, name), k in sorted(MOCK_HITS.items()):        # calls per member, summed over the directives
+        ctx.count(f"c03:mock:{member}", k)
     n = ctx.budget(400, 6000, 6000)
     tier = getattr(ctx, "tier", "quick")
     for i in range(n):
-        base = gen_case(ctx.rng, tier, i)
+        base = gen_case(ctx.rng, tier, i, structured=STRUCTURED_SHARE)
         for t in base.get("tags", ()):
             ctx.count("c03:gen:" + t)
         if i % max(1, n // 8) == 0:
@@ -1554,7 +2757,7 @@ def _main(argv):
     t0 = time.time()
     per_sig = search(ctx)
     dt = time.time() - t0
-    print(f"cases run: {ctx.search_cases} (fixed {len(FIXED_WITNESSES)} + generated {n} x 2 stages) in {dt:.1f}s")
+    print(f"cases run: {ctx.search_cases} (fixed {len(ALL_WITNESSES)} + generated {n} x 2 stages) in {dt:.1f}s")
     best = {}
     for f in ctx.failures:
         w = f["witness"]
